@@ -195,7 +195,7 @@ SCOPES = {
 
 
 MINI = dict(Convs={100, 120, 115, 99, 102}, FlagSets={0, 1, 2}, Widths={900, 5}, Precs={900, 0, 3}, Lens={"", "l", "L"}, Shapes={1, 2}, IntIdx={1, 3, 12})
-NSCOPE = dict(Convs={110, 100}, FlagSets={0, 1, 2, 3, 5}, Widths={900, 5, 901}, Precs={900, 3}, Lens={"", "hh", "h", "l", "ll", "j", "z", "t"},
+NSCOPE = dict(Convs={110, 100}, FlagSets={0, 1, 2, 3, 5, 15, 16, 17}, Widths={900, 5, 901}, Precs={900, 3}, Lens={"", "hh", "h", "l", "ll", "j", "z", "t", "Z", "q"},
               Shapes={1, 2, 3, 4, 5, 6, 7, 8, 9}, IntIdx={2})
 
 
